@@ -948,6 +948,13 @@ impl<'a> Ctx<'a> {
                         children: inner,
                     }
                 };
+                let content = if self.r.chance(0.2) {
+                    // the slotted element sits inside a structural wrapper
+                    let c = if self.r.chance(0.5) { id("flag") } else { self.scalar_leaf() };
+                    Node::If { branches: vec![(c, vec![content])], else_: None, on: None }
+                } else {
+                    content
+                };
                 let mut children = vec![content];
                 if self.r.chance(0.25) {
                     // a text node directly in the slot content (one copy per slot instance, too)
@@ -1218,8 +1225,8 @@ pub fn catalogue_component(kind: &str) -> Value {
     }
 }
 
-const WXS_INLINE: &str = "exports.j = function(a){ return JSON.stringify(a) }; exports.j.__id = '@PATH@#m:j'; exports.f = function(a){ return 'f(' + a + ')' }; exports.f.__id = '@PATH@#m:f'; exports.o = { g: function(a){ return 'g' } }; exports.o.g.__id = '@PATH@#m:o.g'; exports.k = 7; exports.rev = function(a){ return a && a.slice ? a.slice().reverse() : a }; exports.wrap = function(a, b){ return {p: a, q: b} }; exports.pickf = function(n){ return n === 'x' || n === 'a' ? exports.f : exports.j }; exports.rows = [{k: 1, v: 'r1', w: 'w1', sub: [{k: 11, v: 's1'}], h: function(){ return 'h0' }}, {k: 2, v: 'r2', w: 'w2', sub: [], h: function(){ return 'h1' }}]; exports.rows[0].h.__id = '@PATH@#m:rows.0.h'; exports.rows[1].h.__id = '@PATH@#m:rows.1.h'";
-const WXS_EXT: &str = "exports.j = function(a){ return JSON.stringify(a) }; exports.j.__id = 'utils/s:j'; exports.f = function(a){ return 's(' + a + ')' }; exports.f.__id = 'utils/s:f'; exports.o = { g: function(a){ return 'sg' } }; exports.o.g.__id = 'utils/s:o.g'; exports.k = 9; exports.rev = function(a){ return a && a.slice ? a.slice().reverse() : a }; exports.wrap = function(a, b){ return {p: a, q: b} }; exports.pickf = function(n){ return n === 'x' || n === 'a' ? exports.f : exports.j }; exports.rows = [{k: 1, v: 'e1', w: 'x1', sub: [{k: 11, v: 't1'}], h: function(){ return 'h0' }}, {k: 2, v: 'e2', w: 'x2', sub: [], h: function(){ return 'h1' }}]; exports.rows[0].h.__id = 'utils/s:rows.0.h'; exports.rows[1].h.__id = 'utils/s:rows.1.h'";
+const WXS_INLINE: &str = "exports.j = function(a){ return JSON.stringify(a) }; exports.j.__id = '@PATH@#m:j'; exports.f = function(a){ return 'f(' + a + ')' }; exports.f.__id = '@PATH@#m:f'; exports.o = { g: function(a){ return 'g' } }; exports.o.g.__id = '@PATH@#m:o.g'; exports.k = 7; exports.rev = function(a){ return a && a.reverse ? a.slice().reverse() : a }; exports.wrap = function(a, b){ return {p: a, q: b} }; exports.pickf = function(n){ return n === 'x' || n === 'a' ? exports.f : exports.j }; exports.rows = [{k: 1, v: 'r1', w: 'w1', sub: [{k: 11, v: 's1'}], h: function(){ return 'h0' }}, {k: 2, v: 'r2', w: 'w2', sub: [], h: function(){ return 'h1' }}]; exports.rows[0].h.__id = '@PATH@#m:rows.0.h'; exports.rows[1].h.__id = '@PATH@#m:rows.1.h'";
+const WXS_EXT: &str = "exports.j = function(a){ return JSON.stringify(a) }; exports.j.__id = 'utils/s:j'; exports.f = function(a){ return 's(' + a + ')' }; exports.f.__id = 'utils/s:f'; exports.o = { g: function(a){ return 'sg' } }; exports.o.g.__id = 'utils/s:o.g'; exports.k = 9; exports.rev = function(a){ return a && a.reverse ? a.slice().reverse() : a }; exports.wrap = function(a, b){ return {p: a, q: b} }; exports.pickf = function(n){ return n === 'x' || n === 'a' ? exports.f : exports.j }; exports.rows = [{k: 1, v: 'e1', w: 'x1', sub: [{k: 11, v: 't1'}], h: function(){ return 'h0' }}, {k: 2, v: 'e2', w: 'x2', sub: [], h: function(){ return 'h1' }}]; exports.rows[0].h.__id = 'utils/s:rows.0.h'; exports.rows[1].h.__id = 'utils/s:rows.1.h'";
 
 // ---------------------------------------------------------------------------------------------
 
